@@ -43,7 +43,11 @@ class WorldAborted(BaseException):
 
 
 def Get_processor_name():
-    return "fakenode"
+    """Per-rank node name of the current world's placement (single node outside a world)."""
+    w = getattr(_tls, "world", None)
+    if w is None or not w.node_names:
+        return "fakenode"
+    return w.node_names[getattr(_tls, "rank", 0)]
 
 
 class _Message:
@@ -58,8 +62,9 @@ class _Message:
 class World:
     """One simulated run of ``size`` ranks."""
 
-    def __init__(self, size, seed=0, policy="random", send_mode="eager", max_steps=2_000_000):
+    def __init__(self, size, seed=0, policy="random", send_mode="eager", max_steps=2_000_000, node_names=None):
         self.size = size
+        self.node_names = list(node_names) if node_names else None  # placement of the ranks on nodes
         self.rng = random.Random(seed)
         self.policy = policy
         self.send_mode = send_mode
